@@ -377,6 +377,7 @@ def run(prog, tier, extra=None):
     R4 = res.rule("C09.size-predictor", "Transaction::get_serialized_size is the same linear form as the writer's length", floor=1)
     R5 = res.rule("C09.container-domain", "the block decoder adds no value-domain restriction of its own on carried transactions", floor=1)
     R6 = res.rule("C09.count-limits", "the reader accepts every slip count the writer encodes", floor=2)
+    R7 = res.rule("C09.inline-variants", "Message variants encoded inline (tuple fields concatenated in the match arm) are read back at the offsets they are written", floor=4)
     R3 = res.rule("C09.tags", "Message tags are injective and each decode arm constructs the variant carrying that tag", floor=28)
     cd = Codec(prog)
     summary = {}
@@ -704,6 +705,75 @@ def run(prog, tier, extra=None):
             else:
                 res.sample({"tag": v, "variant": want, "verdict": "written and decoded consistently"})
         break
+    # R7: tuple variants of Message whose payload is built inline in Message::serialize (`[a.as_slice(), b.to_be_bytes().as_slice()].concat()`)
+    # and taken apart inline in Message::deserialize: field k of the variant is written at the offset it is read from
+    ms = find_body(prog, "msg::message::Message::serialize")
+    chs7, chd7 = Chaser(ms), Chaser(de)
+    written = {}      # variant -> {field index: (offset, width)}
+    for bb, t in ms.calls():
+        n = call_name(t) or ""
+        if n not in ("std::slice::concat", "std::slice::Concat::concat", "std::slice::Join::join"):
+            continue
+        e = chs7.origin(t["args"][0])
+        agg = next((x for x in walk(e) if x[0] == "agg" and x[1][0] == "array"), None)
+        if agg is None:
+            continue
+        off = 0
+        var = None
+        lay = {}
+        for el in agg[2]:
+            dc = [x for x in walk(el) if x[0] == "field" and x[1][0] == "downcast" and x[2].endswith("msg::message::Message")]
+            w = cd.width_of(ms, el)
+            if w is None and dc:
+                # the type of field k of that variant ([u8; N] / an integer written with to_be_bytes)
+                a7 = prog.adts.get(dc[0][2])
+                u7 = prog.adt_unit.get(dc[0][2])
+                for v7 in (a7 or {}).get("variants", []):
+                    if v7["name"] == dc[0][1][2]:
+                        for f7 in v7["fields"]:
+                            if f7["name"] == dc[0][3] and isinstance(f7.get("ty"), int):
+                                ty7 = u7.types[f7["ty"]]
+                                w = ty7.get("n") if ty7["k"] == "array" and u7.types[ty7["i"]]["s"] == "u8" else INT.get(ty7["s"])
+            if dc:
+                var = dc[0][1][2]
+                if off is not None and w is not None:
+                    lay[int(dc[0][3])] = (off, w)
+            off = off + w if (off is not None and w is not None) else None
+        if var is not None and lay:
+            written[var] = lay
+
+    def const_range(e):
+        out = []
+        for x in walk(e):
+            if x[0] == "call" and x[1] == "std::ops::Index::index" and len(x[2]) == 2:
+                idx = x[2][1]
+                while idx[0] in ("ref", "deref"):
+                    idx = idx[1]
+                if idx[0] == "agg" and idx[1][0] == "adt" and idx[1][1].endswith("ops::Range") and len(idx[2]) == 2 and all(o[0] == "const" for o in idx[2]):
+                    out.append((idx[2][0][1], idx[2][1][1] - idx[2][0][1]))
+        return out
+    read = {}
+    for blk in de.blocks:
+        for st in blk["s"]:
+            if st[0] == "=" and st[2][0] == "agg" and st[2][1][0] == "adt" and st[2][1][1] == CORE + "msg::message::Message" and len(st[2][2]) >= 2:
+                lay = {}
+                for i, op in enumerate(st[2][2]):
+                    rs = const_range(chd7.origin(op))
+                    if len(rs) == 1:
+                        lay[i] = rs[0]
+                if lay:
+                    read[st[2][1][2]] = lay
+    for var in sorted(set(written) | set(read)):
+        w, r = written.get(var, {}), read.get(var, {})
+        for k in sorted(set(w) | set(r)):
+            res.instance(R7)
+            if k in w and k in r and w[k] != r[k]:
+                res.add(Finding(R7, "C09.inline-variants|%s|%d" % (var, k), "Message::%s: field %d is written at bytes %d..%d of the payload but read from %d..%d"
+                                % (var, k, w[k][0], w[k][0] + w[k][1], r[k][0], r[k][0] + r[k][1]), de.loc(0)))
+            elif k in w and k in r:
+                res.sample({"rule": R7, "variant": var, "field": k, "bytes": "%d..%d" % (w[k][0], w[k][0] + w[k][1])})
+            else:
+                res.not_decided.append("Message::%s field %d: %s side not recognised" % (var, k, "reader" if k in w else "writer"))
     res.explanation = (
         "Decides layout agreement between sibling encoders and decoders: for each codec pair the ordered (field, width) segments of the writer's concat aggregate and the "
         "constant ranges the reader initialises each field from must coincide on the fixed-layout prefix; size constants equal that prefix; the Message tag table is "
